@@ -125,6 +125,8 @@ def cases(tier, seed, i, n):
                        seg='coalesced' if pi % 3 else 'bytewise', z='rsv1')
             yield dict(kind='e2e', p=p, cuts=[] if pi % 3 else [L // 2], ctrl='ping' if pi % 2 else None,
                        seg='bytewise', z='plain-on-deflate')
+            if pi % 2 == 0:
+                yield dict(kind='e2e', p=p, cuts=[], ctrl=None, seg='coalesced', z='rsv1-after-failed-send')
     return gen.shard(allcases(), i, n)
 
 
@@ -237,12 +239,24 @@ def run_e2e(case, acc):
     kbad = refutf8.first_offending_index(p)
     wire = None
     rsv = 0
-    if z == 'rsv1':
+    pre_text = None
+    pre_frame = b''
+    if z in ('rsv1', 'rsv1-after-failed-send'):
         peer = deflate_peer.Peer()
+        if z == 'rsv1-after-failed-send':
+            # an earlier compressed text the judged one refers back to (context takeover); in between, the
+            # application makes a compressed send that fails - no business of the receiving direction
+            good = p if valid else p[:kbad if kbad is not None else 0]
+            while good and not refutf8.valid(good):
+                good = good[:-1]
+            pre = (good * 3 + b' earlier message') if good else b'earlier message earlier message'
+            pre_text = refutf8.decode(pre)
+            pre_frame = refws.enc_frame(1, peer.compress(pre), rsv=4)
         wire = peer.compress(p)
         rsv = 4
         cuts = [min(c, len(wire)) for c in cuts]
     stream, after, end = build_text_stream(p, cuts, ctrl, rsv, wire)
+    stream = pre_frame + stream
     tail = refws.enc_frame(1, 'ok-€'.encode('utf-8')) if valid else refws.enc_frame(1, b'<<AFTER>>')
     hl = HS_LEN[bool(z)]
     full = stream + tail
@@ -251,10 +265,19 @@ def run_e2e(case, acc):
     else:
         scuts = None
     w = H.World(H.hs_server([('raw', full), ('eof',)], HS_DEFLATE if z else HS_PLAIN), cuts=scuts)
-    run = H.drive(w, ws_kwargs=dict(compress=True) if z else None, connect_kwargs=dict(ping_rate=0))
+    policy = None
+    if pre_text is not None:
+        w.frame_faults = {1: 'timeout'}
+        policy = H.TablePolicy({'text#0': [['send_text', 'does not get out does not get out']]})
+    run = H.drive(w, ws_kwargs=dict(compress=True) if z else None, connect_kwargs=dict(ping_rate=0), policy=policy)
     evs = [e for e in run.events if e.name != 'poll']
     names = [e.name for e in evs]
     texts = [e.text for e in evs if e.name == 'text']
+    if pre_text is not None:
+        if texts[:1] != [pre_text]:
+            acc.violation('valid-text-misdelivered', 'C05 earlier compressed message not delivered', case, dict(events=[H.norm(e) for e in evs][-5:]))
+            return
+        texts = texts[1:]
     npe = names.count('protocol_error')
     acc.count2('e2e', 'verdicts_compared')
     if ctrl:
@@ -274,7 +297,7 @@ def run_e2e(case, acc):
             key = 'invalid-text-delivered'
         elif npe != 1:
             key = 'invalid-text-no-single-protocol-error'
-    if key is None and not valid and z != 'rsv1':
+    if key is None and not valid and z not in ('rsv1', 'rsv1-after-failed-send'):
         # fail fast: how many stream bytes had been read when the ProtocolError was yielded?
         idx = names.index('protocol_error')
         real_idx = [i for i, e in enumerate(run.events) if e.name == 'protocol_error'][0]
